@@ -41,12 +41,12 @@ def run(rep, tier, seed, replay):
                            "exit_status": rc, "output_tail": out[-1500:]})
     rep.cov["correspondence"]["depth_probes"] = probes
     rep.cov["evaluations"] = rep.cov.get("evaluations", 0) + len(probes)
-    for mode, n, what in (("c10dec", 5000 if quick else 200000, "decode-all on arbitrary byte streams under recover()"),
-                          ("c11resp", 1500 if quick else 100000, "request outcome for arbitrary backend replies (real handleResp / handleRedirection / handleClusterDown)"),
-                          ("c11nodes", 2500 if quick else 100000, "parseClusterNodes on mutated CLUSTER NODES texts under recover()"),
-                          ("c14", 2000 if quick else 60000, "client requests (every command name, EVAL key counts, malformed arrays) through the real handleRequest under recover()"),
+    for mode, n, what in (("c10dec", 5000 if quick else 100000, "decode-all on arbitrary byte streams under recover()"),
+                          ("c11resp", 1500 if quick else 50000, "request outcome for arbitrary backend replies (real handleResp / handleRedirection / handleClusterDown)"),
+                          ("c11nodes", 2500 if quick else 50000, "parseClusterNodes on mutated CLUSTER NODES texts under recover()"),
+                          ("c14", 2000 if quick else 30000, "client requests (every command name, EVAL key counts, malformed arrays) through the real handleRequest under recover()"),
                           ("c13", 400 if quick else 20000, "write/read sequences through the compression filter and its decompression hooks (values that are, or are cut-off, compression headers) under recover()"),
-                          ("c18step", 1500 if quick else 60000, "SCAN requests with mistyped options (a name without its value, non-numbers) and arbitrary node replies through the real handlers under recover()")):
+                          ("c18step", 1500 if quick else 30000, "SCAN requests with mistyped options (a name without its value, non-numbers) and arbitrary node replies through the real handlers under recover()")):
         res = differential(rep, PROP, mode, seed + 11, n, tier)
         cases, impl, model = res["cases"], res["impl"], res["models"][mode]
         mm = [i for i in vlib.diff_lines(impl, model) if not (model[i] == "AMBIG" and "PANIC" not in impl[i])]
